@@ -433,7 +433,7 @@ func (x *Exec) havocLvalue(env *SpecEnv, st *State, e *Expr) {
 			nv = Store(arr, loc.ref, x.ctx.Fresh("hv_"+shortKey(loc.key), loc.sort.Val))
 		}
 		st.heap[loc.key] = nv
-		x.written[loc.key] = true
+		x.noteWrite(loc.key, nil)
 	}
 }
 
